@@ -73,6 +73,25 @@ def gen_plan(seed: int, tier: str) -> dict:
     if mode == "coap":
         plan["req"] = []
     plan["second"] = r.random() < 0.3
+    if mode == "ble" and r.random() < 0.12:
+        # one write of the request loses its acknowledgement (link stays up); the request is sized so that its LAST fragment is
+        # exactly full - a fragment sent twice would then be reassembled into a different request of the announced length
+        fs = plan["fsize"]
+        k = r.choice([1, 2, 3])
+        body = (fs - 7) + k * (fs - 2)  # BleRequest struct: 09 01 01 | 01 <list>, value TLV header 2 bytes per 255-byte piece
+        for n_pieces in (1, 2, 3, 4, 5, 6, 7, 8):
+            lst = body - 3 - 2 * n_pieces
+            if lst > 0 and (lst + 254) // 255 == n_pieces:
+                # the list itself: one item, 2 header bytes per 255-byte piece of its value
+                for m in (1, 2, 3, 4, 5, 6, 7, 8):
+                    v = lst - 2 * m
+                    if v > 0 and (v + 254) // 255 == m:
+                        plan["req"] = [[9, v]]
+                        plan["fault"] = "ack_lost"
+                        plan["idx"] = r.choice([1, 2, 2, 3])
+                        plan["second"] = False
+                        break
+                break
     if fault in ("frag_empty_last", "frag_empty_middle") and not plan["tlv_frag"]:
         plan["tlv_frag"] = r.choice([16, 64, 200])
     return plan
@@ -258,6 +277,8 @@ def execute_ble(plan, ch):
 
     async def main():
         client = LinkClient(ctx, acc, plan["fsize"])
+        if plan["fault"] == "ack_lost":
+            client.ack_lost_at = plan["idx"]
         try:
             out["res"] = await _pairing_char_write(client, client.handle_for(34), 34, lib_items(req))
         except Exception as e:  # noqa: BLE001
@@ -284,7 +305,10 @@ def execute_ble(plan, ch):
     finally:
         seams.end()
     ctx.event("ble", type(out["exc"]).__name__ if out["exc"] else "ok", seen["n"], len(rb))
-    judge_request(ctx, plan, req, seen["raw"])
+    if plan["fault"] == "ack_lost" and seen["raw"] is None:
+        ctx.probe("c15_ack_lost_request_not_completed")  # the peer never completed a request: fine, the caller got an error
+    else:
+        judge_request(ctx, plan, req, seen["raw"])
     if out.get("errors"):
         # the BleRequest struct that carries the list (09 01 01 | 01 <list>) as the strict reference decoder saw it
         ctx.violate("request-not-canonical", "ble-request-struct", f"request list of {len(seen['raw'] or b'')} bytes: reference accessory: {out['errors'][:2]}")
